@@ -9,6 +9,7 @@ import (
 	"os"
 	"os/exec"
 	"path/filepath"
+	"strings"
 	"time"
 
 	"github.com/prometheus/alertmanager/app"
@@ -81,7 +82,23 @@ func (c *child) Kill() {
 
 // startChild starts a clustered instance in its own process; cfg is the configuration text (receivers pointing at the
 // parent's sink).
-func startChild(s *sc, sink *Sink, name string, port int, peers []string, settle time.Duration, cfg string) *child {
+func startChild(s *sc, sink *Sink, name string, peers []string, settle time.Duration, cfg string) (*child, int) {
+	for try := 0; ; try++ {
+		port, err := freePort()
+		s.must(err, "find a cluster port")
+		c, err := startChildOn(s, sink, name, port, peers, settle, cfg)
+		if err == nil {
+			return c, port
+		}
+		if try < 5 && strings.Contains(err.Error(), "address already in use") {
+			s.logf("cluster port %d of %s was taken, trying another", port, name)
+			continue
+		}
+		s.must(err, "child instance")
+	}
+}
+
+func startChildOn(s *sc, sink *Sink, name string, port int, peers []string, settle time.Duration, cfg string) (*child, error) {
 	dir, err := os.MkdirTemp("", "appsys-child-")
 	s.must(err, "child dir")
 	in := &Instance{Dir: dir, CfgPath: filepath.Join(dir, "alertmanager.yml"), Sink: sink, Log: &logBuf{}}
@@ -99,13 +116,15 @@ func startChild(s *sc, sink *Sink, name string, port int, peers []string, settle
 	for {
 		if b, err := os.ReadFile(filepath.Join(dir, "addr")); err == nil {
 			in.Addr = string(b)
-			return c
+			return c, nil
 		}
 		if b, err := os.ReadFile(filepath.Join(dir, "child.err")); err == nil {
-			s.must(fmt.Errorf("%s", b), "child instance")
+			c.Kill()
+			return nil, fmt.Errorf("%s", b)
 		}
 		if time.Now().After(dl) {
-			s.must(fmt.Errorf("no address after 20s"), "child instance")
+			c.Kill()
+			return nil, fmt.Errorf("no address after 20s")
 		}
 		time.Sleep(50 * time.Millisecond)
 	}
